@@ -3,11 +3,9 @@ import re
 from .. import cfg
 from ..effects import Cone
 from ..facts import keyname, AnchorLost
-from ..flow import flow, deps, deep_strip, strip, show, mentions, fold
+from ..flow import flow, deps, deep_strip, strip, show, mentions, fold, infeasible
 from .C03 import rule_b as loops_rule, rule_c as panics_rule
-from .C07 import roles, method, word_calls, CH
-
-SIGINFO = "libc::unix::linux_like::linux::gnu::b64::x86_64::siginfo_t"
+from .chan import roles, method, word_calls, CH, CN, PN, is_take, is_give, primitives, SIGINFO
 FORBIDDEN = {"ALLOC", "FREE", "LOCK", "WAIT", "ALLOCFREE_UNKNOWN", "SYSCALL", "UNCLASSIFIED", "SAFE_FFI_BLOCK", "SAFE_FFI", "TERM"}
 
 
@@ -32,10 +30,11 @@ def rule_b(ctx, cone):
     F = ctx.F
     loops_rule(ctx, cone=cone, rid="C08.b", floor=3)
     rid = "C08.b"
-    send = method(F, "send", SIGINFO)
+    send0 = method(F, "send", SIGINFO)
+    send = CN(F, send0)
     # the "no free slot" outcome goes straight to return: no call on that branch
     words, cells = roles(F)
-    takes = [(bb, t, c, w) for (bb, t, c, w) in word_calls(F, send, words) if "core::option::Option<u16>" in c.local_ty(0)]
+    takes = [(bb, t, c, w) for (bb, t, c, w) in word_calls(F, send, words) if is_take(c)]
     if len(takes) != 1:
         raise AnchorLost("send: take call")
     tb = takes[0][0]
@@ -56,7 +55,7 @@ def rule_b(ctx, cone):
                 if cs or any(x in c for c in cfg.cycles(send) for x in r):
                     okk = False
             okk = okk and some_exit
-    ctx.check(okk, rid, "send:full-drops", "when no slot is free, send goes straight to return (drops, never waits or retries)", send.span, calls)
+    ctx.check(okk, rid, "send:full-drops", "when no slot is free, send goes straight to return (drops, never waits or retries)", send0.span, calls)
 
 
 def rule_c(ctx, cone):
@@ -95,7 +94,9 @@ def rule_c(ctx, cone):
             elif e[0] in ("ref", "deref", "cast"):
                 st.append(deep_strip(e[1]))
         return None
-    fills = [(bb, t, c, w) for (bb, t, c, w) in word_calls(F, new, words) if len(t["args"]) == 2]
+    new0 = new
+    new = CN(F, new0)
+    fills = [(bb, t, c, w) for (bb, t, c, w) in word_calls(F, new, words) if is_give(t)]
     okk = False
     detail = None
     if len(fills) == 1:
@@ -106,29 +107,31 @@ def rule_c(ctx, cone):
             if len(nxt) == 1:
                 rg = range_of(new, flow(new).term_arg(nxt[0], 0))
                 arg = [deep_strip(e) for e in flow(new).term_arg(bb, 1)]
-                item = all(mentions(e, lambda x: x[0] == "call" and x[1] == nxt[0]) for e in arg)
+                item = bool(arg) and all(mentions(e, lambda x: x[0] == "call" and x[1] == nxt[0]) for e in arg)
                 okk = rg == (1, S + 1) and item
                 detail = {"range": rg, "expected": (1, S + 1), "gives_loop_item": item}
-    elif not fills:
-        # `(1..=SLOTS).for_each(|i| give(&me.empty, i))`: the give sits in a closure handed to a whole-range adapter
-        for cl in [i for i in F.inst if i.kind == "closure" and i.body is not None and i.name.startswith(new.name + "::{closure#")]:
-            cf = [(bb, t, c, w) for (bb, t, c, w) in word_calls(F, cl, words) if len(t["args"]) == 2]
+    if not okk:
+        # `(1..=SLOTS).for_each(|i| give(&me.empty, i))`: the give sits in a closure handed to a whole-range adapter (recognised on the
+        # source-level frames: after inlining, the adapter's internals — two call sites for RangeInclusive — hide the idiom)
+        from .util import exactly_once
+        for cl in [i for i in F.inst if i.kind == "closure" and i.body is not None and i.name.startswith(new0.name + "::{closure#")]:
+            cf = [(bb, t, c, w) for (bb, t, c, w) in word_calls(F, cl, words) if is_give(t)]
             if len(cf) != 1:
                 continue
             arg = [deep_strip(e) for e in flow(cl).term_arg(cf[0][0], 1)]
-            item = all({x for x in deps(cl, [e], follow=lambda d: False) if x[0] in ("param", "call")} == {("param", 2)} for e in arg)
-            once, why = __import__("engine.rules.util", fromlist=["exactly_once"]).exactly_once(cl, [cf[0][0]])
-            for bb, t in new.calls():
+            item = bool(arg) and all({x for x in deps(cl, [e], follow=lambda d: False) if x[0] in ("param", "call")} == {("param", 2)} for e in arg)
+            once, why = exactly_once(cl, [cf[0][0]])
+            for bb, t in new0.calls():
                 if (t.get("def") or "").split("::")[-1] in ("for_each",) and any(deep_strip(e)[0] == "agg" and deep_strip(e)[1][0] == "closure" and deep_strip(e)[1][1] == cl.defp
-                                                                              for ai in range(len(t["args"])) for e in flow(new).term_arg(bb, ai)):
-                    rg = range_of(new, flow(new).term_arg(bb, 0))
-                    okk = rg == (1, S + 1) and item and once and not cfg.in_cycle(new, bb)
+                                                                              for ai in range(len(t["args"])) for e in flow(new0).term_arg(bb, ai)):
+                    rg = range_of(new0, flow(new0).term_arg(bb, 0))
+                    okk = rg == (1, S + 1) and item and once and not cfg.in_cycle(new0, bb)
                     detail = {"range": rg, "expected": (1, S + 1), "gives_item": item, "once_per_item": why}
-    ctx.check(okk, rid, "new:fills-1..=SLOTS", "new() hands each index 1..=SLOTS to the pre-filled queue once (loop over Range{1, SLOTS+1})", new.span, detail)
+    ctx.check(okk, rid, "new:fills-1..=SLOTS", "new() hands each index 1..=SLOTS to the pre-filled queue once (loop over Range{1, SLOTS+1})", new0.span, detail)
     # cell index = lane value - 1
     for nm in ("send", "recv"):
         m = method(F, nm, SIGINFO)
-        bodies = [m] + [i for i in F.inst if i.kind == "closure" and i.name.startswith(m.name + "::{closure")]
+        bodies = [CN(F, m)]
         found = False
         for b in bodies:
             for bl in b.blocks:
@@ -140,13 +143,14 @@ def rule_c(ctx, cone):
 
 def _snap_sources(m, exprs):
     """which snapshots of the queue word does a value depend on: the initial load and/or the value handed back by a failed CAS"""
-    d = deps(m, exprs, follow=lambda x: "sync::atomic::Atomic::<" not in x)
+    d = deps(m, exprs, follow=lambda x: "sync::atomic::Atomic::<" not in x and "sync::atomic::atomic_" not in x)
     out = set()
     for x in d:
         if x[0] == "call":
             df = m.term(x[1]).get("def") or ""
-            if re.search(r"atomic::Atomic::<\w+>::(load|compare_exchange|compare_exchange_weak|swap|fetch_\w+)$", df):
-                out.add((x[1], df.split("::")[-1]))
+            if re.search(r"atomic::Atomic::<\w+>::(load|compare_exchange|compare_exchange_weak|swap|fetch_\w+)$", df) or \
+                    re.search(r"atomic::atomic_(load|compare_exchange|compare_exchange_weak|swap|add|sub|and|or|xor)$", df):
+                out.add((x[1], df.split("::")[-1].replace("atomic_", "")))
     return out
 
 
@@ -155,20 +159,13 @@ def rule_e(ctx):
     rid = "C08.e"
     ctx.rule(rid, "CAS-loop coherence: in the take/give primitives the value returned (the taken index) and the new queue word are computed from "
                   "the very snapshot the successful compare_exchange compared against, on every iteration (no stale head after a retry)", floor=3)
-    send = method(F, "send", SIGINFO)
-    words, cells = roles(F)
-    prims = {}
-    for (bb, t, c, w) in word_calls(F, send, words):
-        prims[c.id] = c
-    recv = method(F, "recv", SIGINFO)
-    for b in [recv] + [i for i in F.inst if i.kind == "closure" and i.name.startswith(recv.name + "::{closure")]:
-        for (bb, t, c, w) in word_calls(F, b, words):
-            prims[c.id] = c
+    prims = primitives(F, SIGINFO)
     if len(prims) < 2:
         raise AnchorLost("take/give primitives of the channel")
     from ..atomics import sites
-    for c in prims.values():
-        ctx.fn(c)
+    for c0 in prims.values():
+        ctx.fn(c0)
+        c = PN(F, c0)
         fl = flow(c)
         cas = [s1 for s1 in sites(F, c) if s1.op.startswith("compare_exchange")]
         for s1 in cas:
@@ -182,7 +179,7 @@ def rule_e(ctx):
                 somes = [(bb, si, st) for bb, bl in enumerate(c.blocks) for si, st in enumerate(bl["s"]) if st["k"] == "assign" and st["r"]["k"] == "aggregate"
                          and st["r"].get("def") == "core::option::Option" and st["r"]["variant"] == "Some"]
                 for (bb, si, st) in somes:
-                    vex = fl.operand(st["r"]["ops"][0], (bb, si))
+                    vex = [e for e in fl.operand(st["r"]["ops"][0], (bb, si)) if not infeasible(e)]
                     v = _snap_sources(c, vex)
                     # the Ok payload of the successful CAS *is* the snapshot it compared against
                     from_ok = bool(vex) and all(mentions(e, lambda x: x[0] == "downcast" and x[2] == "Ok" and deep_strip(x[1])[0] == "call" and deep_strip(x[1])[1] == s1.bb) and
